@@ -1,3 +1,5 @@
+import binascii
+
 from ..binary import Binary
 
 
@@ -25,8 +27,8 @@ def parse_hex_string(buffer):
         except StopIteration:
             raise ValueError("Invalid hex string: uneven amount of digits.")
 
-        # parse
-        yield int(high_nibble + low_nibble, 16)
+        # parse (exactly two hex digits; int(x, 16) would also accept a sign)
+        yield binascii.unhexlify(high_nibble + low_nibble)[0]
 
         high_nibble = b""
         low_nibble = b""
